@@ -278,18 +278,22 @@ def folder_cache_updated(cls: ast.ClassDef) -> bool:
     return False
 
 
-def nmne_gate(fn: ast.FunctionDef) -> Tuple[bool, bool]:
-    """(there is a branch on `capture_nmne and include_nmne`, there is a branch emitting zeros on `include_nmne and not capture_nmne`)"""
-    cap, dflt = False, False
+def nmne_gate(fn: ast.FunctionDef) -> Tuple[bool, bool, str, bool]:
+    """(there is a branch on `capture_nmne and self.include_nmne`, there is a branch emitting zeros on `self.include_nmne and not
+    capture_nmne`, the expression the LOCAL `capture_nmne` is assigned from, observe still reads the class attribute `self.capture_nmne`)"""
+    cap, dflt, src = False, False, "<none>"
     for node in ast.walk(fn):
         if isinstance(node, ast.If):
             t = ast.unparse(node.test)
-            if t == "self.capture_nmne and self.include_nmne":
+            if t == "capture_nmne and self.include_nmne":
                 cap = True
-            if t == "self.include_nmne and (not self.capture_nmne)":
-                src = ast.unparse(node.body[0])
-                dflt = "'NMNE': {'inbound': 0, 'outbound': 0}" in src
-    return cap, dflt
+            if t == "self.include_nmne and (not capture_nmne)":
+                src_ = ast.unparse(node.body[0])
+                dflt = "'NMNE': {'inbound': 0, 'outbound': 0}" in src_
+        if isinstance(node, ast.Assign) and len(node.targets) == 1 and ast.unparse(node.targets[0]) == "capture_nmne":
+            src = ast.unparse(node.value)
+    reads_class_attr = any(isinstance(n, ast.Attribute) and n.attr == "capture_nmne" for n in ast.walk(fn))
+    return cap, dflt, src, reads_class_attr
 
 
 OBSERVED_KEYS = {"operating_state", "health_state_actual", "health_state_visible", "health_status", "visible_status", "enabled",
@@ -377,9 +381,11 @@ def emit() -> str:
     t, e = scan_gate(find_method(cls["FolderObservation"], "observe"), "file_system_requires_scan")
     out.append(f'def folderScanGate : String × String := ("{t}", "{e}")')
     out.append(f"def folderCacheUpdated : Bool := {'true' if folder_cache_updated(cls['FolderObservation']) else 'false'}")
-    cap, dflt = nmne_gate(find_method(cls["NICObservation"], "observe"))
+    cap, dflt, src, reads = nmne_gate(find_method(cls["NICObservation"], "observe"))
     out.append(f"def nmneCaptureBranch : Bool := {'true' if cap else 'false'}")
     out.append(f"def nmneDefaultWhenNotCapturing : Bool := {'true' if dflt else 'false'}")
+    out.append('def nmneCaptureSource : String := "' + src.replace('"', "'") + '"')
+    out.append(f"def nmneObserveReadsClassAttribute : Bool := {'true' if reads else 'false'}")
     out.append("")
     # categorisers
     out.append(translate_categoriser(cls["ApplicationObservation"], "_categorise_num_executions", "catNumExecutions",
